@@ -333,7 +333,7 @@ Definition env_step (s : sys) (e : env) : sys :=
   | ETerminated i => mkSys (s_now s) (s_pools s) (upd_node set_term i (s_nodes s)) (s_queue s)
   | EInit i => mkSys (s_now s) (s_pools s) (upd_node set_init i (s_nodes s)) (s_queue s)
   | EAdd x =>
-      if existsb (fun y => n_id y =? n_id x) (s_nodes s) then s
+      if existsb (fun y => n_id y =? n_id x) (s_nodes s) || in_queue s (n_id x) then s
       else mkSys (s_now s) (s_pools s) (s_nodes s ++ [set_marked false x]) (s_queue s)
   | ERemove i => mkSys (s_now s) (s_pools s) (filter (fun x => negb (n_id x =? i)) (s_nodes s)) (s_queue s)
   | EBudgets p bs =>
@@ -359,10 +359,13 @@ Definition propose (s : sys) (m : method) (cs : list cand) (ch : choice) : list 
   | MSingle, _ => one_if_budget mp cs
   | MDrift, _ => one_if_budget mp cs
   | MStaticDrift, ChStatic groups =>
-      flat_map (fun g => match find_pool (s_pools s) (fst g) with
-                         | Some p => static_drift_pool mp p (snd g) (cands_of_pool (fst g) cs)
-                         | None => []
-                         end) groups
+      (* lo.GroupBy: every pool name is one group *)
+      if nodup_ids (map fst groups) then
+        flat_map (fun g => match find_pool (s_pools s) (fst g) with
+                           | Some p => static_drift_pool mp p (snd g) (cands_of_pool (fst g) cs)
+                           | None => []
+                           end) groups
+      else []
   | _, _ => []
   end.
 
@@ -377,7 +380,9 @@ Definition validate (s : sys) (m : method) (prop cur : list cand) : list cand :=
   match m with
   | MEmptiness => validate_filter mp cur'
   | MMulti | MSingle =>
-      if (length cur' =? length prop)%nat && validate_all mp cur' then prop else []
+      (* all or nothing. The command keeps its original candidates; cur' are the same nodes in
+         their current representation (same length, ids among the proposed ones, no id twice) *)
+      if (length cur' =? length prop)%nat && validate_all mp cur' then cur' else []
   | MDrift | MStaticDrift => prop       (* no validation step *)
   end.
 
